@@ -2,6 +2,7 @@
 package localcachedmap
 
 import (
+	"strconv"
 	"sync"
 
 	"github.com/relex/slog-agent/util"
@@ -95,8 +96,11 @@ type LocalCachedMap[G any, L any] struct {
 //
 //nolint:revive
 func (lm *LocalCachedMap[G, L]) GetOrCreate(tempKeys []string, onCreating func(permKeys []string)) L {
+	// prefix each key with its length, or different key sets such as ("ab","c") and ("a","bc") would be merged into the same key
 	tempMergedKey := lm.keyBuffer
 	for _, tkey := range tempKeys {
+		tempMergedKey = strconv.AppendInt(tempMergedKey, int64(len(tkey)), 10)
+		tempMergedKey = append(tempMergedKey, ':')
 		tempMergedKey = append(tempMergedKey, tkey...)
 	}
 	lm.keyBuffer = tempMergedKey[:0]
